@@ -204,3 +204,13 @@ uint64_t csc_hash(const csc_t *A)
     h = fnv(A->val, A->nnz * sizeof(elem_t), h);
     return h;
 }
+
+/* live heap bytes: the sanitizer's own count when built with ASan, mallinfo2 otherwise */
+#include <malloc.h>
+extern size_t __sanitizer_get_current_allocated_bytes(void) __attribute__((weak));
+size_t heap_bytes(void)
+{
+    if (__sanitizer_get_current_allocated_bytes) return __sanitizer_get_current_allocated_bytes();
+    struct mallinfo2 mi = mallinfo2();
+    return mi.uordblks + mi.hblkhd;
+}
